@@ -307,6 +307,13 @@ def hard_cases(rnd, n=None, year=2001):
           field={"mulches": True, "mulch_pct": 50, "f_mulch": 0.5}),
     ]
     cases += [
+        # parameters of features that are switched off / not applicable, in situations where the feature would matter
+        S("Wheat", "Paddy", seed=rnd.randrange(10 ** 6), regime="wet", field={"bunds": False, "z_bund": 0.2, "bund_water": 30}, iwc={"value": ["SAT", "SAT"], "depth_layer": [1, 2]},
+          events=storm_events(year, (4, 20), (150, 90, 200))),
+        S("Maize", "SiltLoam", seed=rnd.randrange(10 ** 6), irr={"method": 4, "kw": {"NetIrrSMT": 85, "MaxIrr": 5, "MaxIrrSeason": 40}}, iwc={"value": ["WP"]}, seasons=2, off_season=True, lead=8),
+        S("Wheat", "SandyLoam", seed=rnd.randrange(10 ** 6), regime="arid", crop_kw={"ETadj": 0}, iwc={"wc_type": "Pct", "value": [40]}, seasons=3),
+    ]
+    cases += [
         # temperature extremes around flowering (pollination heat / cold stress, hot nights above the crop's upper temperature)
         S("Maize", "Loam", seed=rnd.randrange(10 ** 6), irr={"method": 1, "kw": {"SMT": [70] * 4}},
           events=[{"from": dstr(p0 + _dt.timedelta(days=58)), "to": dstr(p0 + _dt.timedelta(days=80)), "Tmax": 43.5, "Tmin": 31.0}]),
